@@ -355,7 +355,7 @@ Alts(n) ==
                O(<<KV("l", Ls(<<I("one"), Null>>)), KV("p", I("two")), KV("q", I("one"))>>),
                O(<<>>), O(<<KV("q", I("one")), KV("zz", I("one"))>>), O(<<KV("q", Null)>>), I("one"),
                O(<<KV("q", I("one")), KV("l", I("one"))>>), O(<<KV("q", I("gtMax64"))>>)},
-        e |-> {Null, En("A"), En("Z")},
+        e |-> {Null, En("A"), En("Z"), En("b")},
         s |-> {Null, S("abc"), Vr(Absent, NoDef)},
         r |-> {Null, I("one")},
         zz |-> {I("one")}]
